@@ -577,6 +577,10 @@ impl<'a, T: std::fmt::Debug> WaitingState<'a, T> {
         // single release regardless of how many taps were actually done.
         let evict_same_coord_events = |num_taps: u16, queued: &mut Queue| {
             let mut releases_to_remove = num_taps.saturating_sub(1);
+            // The first tap's press started the dance and is not in the queue. Only the presses
+            // that were counted are part of this dance; a press that arrived but was not counted
+            // (it was first seen in the tick in which the dance timed out) starts the next one.
+            let mut presses_to_remove = num_taps.saturating_sub(1);
             queued.retain(|s| {
                 let mut do_retain = true;
                 if self.is_corresponding_release(&s.event) {
@@ -584,8 +588,9 @@ impl<'a, T: std::fmt::Debug> WaitingState<'a, T> {
                         do_retain = false;
                         releases_to_remove = releases_to_remove.saturating_sub(1)
                     }
-                } else if self.is_corresponding_press(&s.event) {
+                } else if self.is_corresponding_press(&s.event) && presses_to_remove > 0 {
                     do_retain = false;
+                    presses_to_remove -= 1;
                 }
                 do_retain
             });
